@@ -95,7 +95,9 @@ def kitchen_sink_src(date="2024-01-01T00:00:00", ns_prefix="xtce") -> str:
                                          {M}.Condition("SEQ_FLGS", "geq", right_param="TYPE", left_use_calibrated_value=False, right_use_calibrated_value=True)],
                                          [{M}.Ored([{M}.Condition("VERSION", "!=", right_value="7", left_use_calibrated_value=False, right_use_calibrated_value=False)], [])]))]),
         containers.SequenceContainer("SCI_HI", [P["PAD"]], base_container_name="SCI",
-                                     restriction_criteria=[{M}.Comparison("4", "MODE", operator=">")]),
+                                     restriction_criteria=[{M}.BooleanExpression({M}.Anded([
+                                         {M}.Condition("MODE", ">", right_value="4", right_use_calibrated_value=False),
+                                         {M}.Condition("PAD", "==", right_param="ARMED", left_use_calibrated_value=True, right_use_calibrated_value=False)], []))]),
       ], ns={{"{ns_prefix}": "{URI}", "xsi": "http://www.w3.org/2001/XMLSchema-instance"}}, xtce_ns_prefix="{ns_prefix}",
       space_system_name="CHECKER", date={date!r}))(containers.SequenceContainer("COMMON", [P["MODE"], P["FLAG"], P["PAD"]], long_description="shared block")))({{p.name: p for p in [{", ".join(params)}]}})"""
     return src
